@@ -282,6 +282,9 @@ def run(ctx):
         'innermost-range lookup shape',
         'child_fields lists every node-valued attribute (position fix-up '
         'and pass walk reach every statement)',
+        'synthesised block start/end records span exactly the gap before '
+        'the first and after the last child instruction (all offset '
+        'orderings)',
     ]
     ctx.not_decided = ['that the recorded line/extract is the text that '
                        'produced the instruction; nesting of ranges; '
@@ -294,6 +297,8 @@ def run(ctx):
     record_synthesis(ctx)
     from .. import grammar_shapes
     grammar_shapes.check_child_fields(ctx, 'C11')
+    from .. import dbgrecords
+    dbgrecords.check(ctx, 'C11')
     if ctx.tier == 'thorough' or True:
         try:
             from .. import gensim
